@@ -136,6 +136,7 @@ def exc_name(exc):
 
 class Conn(object):
     """one real ASTMProtocol instance wired to doubles"""
+    made = 0
 
     def __init__(self, fmt="json", queue=None, timeout=None, peer=("10.0.0.1", 4711), use_default_fmt=False):
         ensure_loop()
@@ -143,7 +144,10 @@ class Conn(object):
         from senaite.astm.protocol import ASTMProtocol
         kw = {}
         if not use_default_fmt:
-            kw["message_format"] = fmt
+            # (a name as it comes from a command line or a configuration file: an equal string, not the interned
+            # literal of the source - every second connection)
+            Conn.made += 1
+            kw["message_format"] = "".join(list(fmt)) if isinstance(fmt, str) and fmt and Conn.made % 2 else fmt
         if timeout is not None:
             kw["timeout"] = timeout
         self.queue = queue if queue is not None else ListQueue()
